@@ -205,6 +205,12 @@ func genXport(r *rng, seed uint64, focus, arm string) *plan.Plan {
 				}
 				t.Acts = append(t.Acts, plan.UpAction{Kind: k2, DelayUs: d2})
 			}
+		case "C18x":
+			if kind == "udp" && r.p(0.5) {
+				// the TCP leg of a udp upstream has connections of its own
+				// (idle ones, and exchanges in flight when Close comes)
+				t.Acts = []plan.UpAction{{Kind: "truncate_udp", DelayUs: r.i64(50, 2000), Arg: r.intn(2)}, {Kind: "reply", DelayUs: delay}}
+			}
 		case "C14":
 			if arm == "faults" {
 				switch r.intn(9) {
@@ -277,6 +283,10 @@ func genXport(r *rng, seed uint64, focus, arm string) *plan.Plan {
 			}
 			if len(mine) > 0 && r.p(0.75) {
 				at = mine[r.intn(len(mine))].AtUs + r.i64(0, 3*xp.Net.UpLatUs[1]+200)
+				if xp.Upstreams[i].Kind == "udp" && r.p(0.5) {
+					// later: while the TCP leg is dialling or waiting
+					at += r.i64(0, 6*xp.Net.UpLatUs[1]+2500)
+				}
 			}
 			xp.Closes = append(xp.Closes, plan.XClose{Up: i, AtUs: at, Twice: r.p(0.6)})
 		}
